@@ -115,4 +115,34 @@ def seqLen (s : Seq) : Int :=
   | some fs => if fs.len > 1 then fs.len else 1
   | none => 1
 
+/-- `FileSequence::setDirname` (no backslash rule in the port) -/
+def setDirname (s : Seq) (d : Bytes) : Seq :=
+  { s with dir := if d.isEmpty || isSuffixOf ['/'] d then d else d ++ ['/'] }
+
+/-- `FileSequence::setExt` (an empty extension stays empty in the port) -/
+def setExt (s : Seq) (e : Bytes) : Seq :=
+  { s with ext := if e.isEmpty || isPrefixOf ['.'] e then e else '.' :: e }
+
+/-- what `findSequencesOnDisk` (fileseq.cpp) makes of one bucket of frames: the string
+    `<dir><basename><range><pad><ext>` is built and given to the constructor; then — as repaired
+    by the `fix:` commit 2e259d6 — when the pad is not empty the components found while scanning
+    are forced, else the result is made frameless -/
+def bucketSeq (st : PadStyle) (dir base frange pad ext : Bytes) : Except Err Seq :=
+  match Seq.parse st (dir ++ base ++ frange ++ pad ++ ext) with
+  | .error e => .error e
+  | .ok s =>
+    if pad.isEmpty then .ok (s.setFrameSet none)
+    else .ok (((setExt ((setDirname s dir).setBasename base) ext).setPadding pad).setFrameRange frange).1
+
+/-- … and of a file that goes to the single-files list: a FileSequence is constructed from the
+    full path, then the directory (fix ae21c36), basename and extension found while scanning are
+    forced; a file without a frame number is made frameless and pad-less -/
+def singleSeq (st : PadStyle) (path dir base frame ext : Bytes) : Except Err Seq :=
+  match Seq.parse st path with
+  | .error e => .error e
+  | .ok s =>
+    let s1 := setExt ((setDirname s dir).setBasename base) ext
+    if frame.isEmpty then .ok ((s1.setFrameSet none).setPadding [])
+    else .ok (s1.setFrameRange frame).1
+
 end Gfs.Cpp
